@@ -68,7 +68,9 @@ func NewMethodEvaluator(
 
 	if ctx.IsCheckRound() {
 		key := evaluatedObjectT.GetFrame() + evaluatedObjectT.GetObjectClass() + methodIdentifierT.ToString()
-		point := p.FileName + ":" + strconv.Itoa(p.Row)
+		// ErrorRow, not Row: when the call is the last thing on its line the
+		// newline has been read already and Row points at the next line
+		point := p.FileName + ":" + strconv.Itoa(p.ErrorRow)
 
 		callPoint :=
 			base.CallPoint{
